@@ -364,6 +364,16 @@ ASMJIT_FAVOR_SIZE Error init_func_detail(FuncDetail& func, const FuncSignature& 
               reg_id = cc._passed_order[RegGroup::kGp].id[gpz_pos];
             }
 
+            // A 64-bit integer unpacked to two 32-bit values is never split between a register and the stack - if
+            // there is only one register left the whole value is passed via stack and so are all following arguments.
+            if (reg_id != Reg::kIdBad && value_index == 0 && func._args[arg_index][1]) {
+              uint32_t next_pos = gpz_pos + 1;
+              if (next_pos >= CallConv::kMaxRegArgsPerGroup || cc._passed_order[RegGroup::kGp].id[next_pos] == Reg::kIdBad) {
+                reg_id = Reg::kIdBad;
+                gpz_pos = CallConv::kMaxRegArgsPerGroup;
+              }
+            }
+
             if (reg_id != Reg::kIdBad) {
               RegType reg_type = type_id <= TypeId::kUInt32 ? RegType::kGp32 : RegType::kGp64;
               arg.assign_reg_data(reg_type, reg_id);
